@@ -16,7 +16,7 @@ import time
 import traceback
 
 from . import boot
-from .core import Stats, Violation, digest_of
+from .core import Stats, Violation, digest_of, GUARD, SimWatchdog, HarnessError
 
 VERIF = boot.VERIF
 STATEMENT_KEYS = {'expr', 'jump', 'label', 'return', 'function', 'include'}
@@ -50,7 +50,18 @@ def _run_chunk(args):
         for seed in seeds:
             plan = mod.gen(seed, tier, extra)
             stats.c['runs'] += 1
-            res = mod.run(plan, stats)
+            GUARD.arm()
+            try:
+                if getattr(mod, 'ISOLATE', False):
+                    res = run_isolated(mod, plan, stats)
+                else:
+                    res = mod.run(plan, stats)
+            except SimWatchdog:
+                res = RunResult([Violation(mod.PROP, 'live', 'wall-clock-hang',
+                                           {'seed': seed, 'note': f'run spun for {GUARD.LIMIT_S}s of wall time without '
+                                            'reaching a seam (hang guard); not minimised'})], 'hang')
+            finally:
+                GUARD.disarm()
             if want_digest:
                 digests[seed] = res.digest
             for v in res.violations:
@@ -62,6 +73,50 @@ def _run_chunk(args):
     finally:
         faulthandler.cancel_dump_traceback_later()
     return stats.to_wire(), violations, digests, time.time() - t0
+
+
+def run_isolated(mod, plan, stats):
+    """Run one plan in a forked child so that every run starts from the pristine post-import state
+    of the code under test: hidden module-level state left behind by earlier runs can then neither
+    make a run irreproducible nor hide behind the order in which a worker happened to run seeds.
+    State leaking between the clients/phases INSIDE one plan stays visible (and replayable)."""
+    import pickle
+    rfd, wfd = os.pipe()
+    pid = os.fork()
+    if pid == 0:
+        code = 0
+        try:
+            os.close(rfd)
+            GUARD.thread = None
+            GUARD.lock = __import__('threading').Lock()
+            GUARD.arm()
+            local = Stats()
+            try:
+                res = mod.run(plan, local)
+                payload = ('ok', [v.to_wire() for v in res.violations], res.digest, res.sample, local.to_wire())
+            except SimWatchdog:
+                payload = ('hang', None, None, None, local.to_wire())
+            except BaseException as exc:  # pylint: disable=broad-except
+                payload = ('error', f'{type(exc).__name__}: {exc}', None, None, local.to_wire())
+            with os.fdopen(wfd, 'wb') as fh:
+                pickle.dump(payload, fh)
+        except BaseException:  # pylint: disable=broad-except
+            code = 1
+        finally:
+            os._exit(code)
+    os.close(wfd)
+    with os.fdopen(rfd, 'rb') as fh:
+        data = fh.read()
+    os.waitpid(pid, 0)
+    if not data:
+        raise HarnessError('isolated child died without a result')
+    kind, a, dig, sample, swire = pickle.loads(data)
+    stats.merge_counts(Stats.from_wire(swire))
+    if kind == 'hang':
+        raise SimWatchdog('hang in isolated child')
+    if kind == 'error':
+        raise HarnessError('isolated child: ' + a)
+    return RunResult([Violation(w['property'], w['rule'], w['signature'], w['detail']) for w in a], dig, sample)
 
 
 class RunResult:
@@ -134,12 +189,20 @@ def minimise(mod, plan, target, max_runs=400, max_seconds=40):
 
     def still_fails(candidate):
         runs[0] += 1
+        GUARD.arm()
         try:
             if hasattr(mod, 'fixup'):
                 mod.fixup(candidate)
-            res = mod.run(candidate, Stats())
+            if getattr(mod, 'ISOLATE', False):
+                res = run_isolated(mod, candidate, Stats())
+            else:
+                res = mod.run(candidate, Stats())
+        except SimWatchdog:
+            res = RunResult([Violation(mod.PROP, 'live', 'wall-clock-hang', {'note': 'hang guard'})], 'hang')
         except Exception:  # pylint: disable=broad-except
             return None
+        finally:
+            GUARD.disarm()
         for v in res.violations:
             if v.rule == target['rule'] and v.signature == target['signature']:
                 return v
@@ -153,6 +216,25 @@ def minimise(mod, plan, target, max_runs=400, max_seconds=40):
     def out_of_budget():
         return runs[0] >= max_runs or time.time() - t0 >= max_seconds
 
+    def apply_simplify():
+        nonlocal best, best_v
+        changed = False
+        if hasattr(mod, 'simplify'):
+            for _ in range(4):
+                again = False
+                for cand in mod.simplify(best, best_v):
+                    if out_of_budget():
+                        break
+                    v = still_fails(cand)
+                    if v is not None:
+                        best, best_v = cand, v
+                        changed = again = True
+                        break
+                if not again:
+                    break
+        return changed
+
+    apply_simplify()
     progress = True
     while progress and not out_of_budget():
         progress = False
@@ -187,14 +269,8 @@ def minimise(mod, plan, target, max_runs=400, max_seconds=40):
                 if v is not None:
                     best, best_v = cand, v
                     progress = True
-        if hasattr(mod, 'simplify'):
-            for cand in mod.simplify(best):
-                if runs[0] >= max_runs or time.time() - t0 >= max_seconds:
-                    break
-                v = still_fails(cand)
-                if v is not None:
-                    best, best_v = cand, v
-                    progress = True
+        if apply_simplify():
+            progress = True
     if hasattr(mod, 'fixup'):
         mod.fixup(best)
     return best, best_v, runs[0]
@@ -220,7 +296,13 @@ def do_replay(mod, path):
     plan = data['plan']
     if hasattr(mod, 'fixup'):
         mod.fixup(plan)
-    res = mod.run(plan, Stats())
+    GUARD.arm()
+    try:
+        res = mod.run(plan, Stats())
+    except SimWatchdog:
+        res = RunResult([Violation(mod.PROP, 'live', 'wall-clock-hang', {'note': 'hang guard'})], 'hang')
+    finally:
+        GUARD.disarm()
     for v in res.violations:
         if v.rule == data['rule'] and v.signature == data['signature']:
             print(f'REPLAY reproduces {mod.PROP}.{v.rule} [{v.signature}]: {json.dumps(v.detail, default=str)[:1500]}')
@@ -370,7 +452,10 @@ def main_check(mod, argv):
             continue
         n_min += 1
         plan = mod.gen(vseed, tier, mod.budget(tier).get('extra'))
-        small, v, nruns = minimise(mod, plan, wire)
+        if wire['signature'] == 'wall-clock-hang':
+            small, v, nruns = plan, Violation(wire['property'], wire['rule'], wire['signature'], wire['detail']), 0
+        else:
+            small, v, nruns = minimise(mod, plan, wire)
         if v is None:
             harness_errors.append(f'violation at seed {vseed} did not reproduce in the parent process')
             continue
